@@ -93,7 +93,7 @@ class PinAnalysis(Analysis):
     def _version(self, st, root):
         return sget(st, "v:" + root, 0)
 
-    def const_call(self, call):
+    def const_call(self, call, st=None):
         c = callee(call)
         if c[0] == "fn":
             return self.ctx["const_ret"].get(c[1])
